@@ -163,7 +163,36 @@ class Exec(Engine):
             self._hv[0] += 1
             st.hver[(okey, attr)] = self._hv[0]
         self.havoc_ghost(st, "*")
-        return [Outcome("normal", st), Outcome("raise", st.fork(), exc=SExc("AnyError", line=line, origin="unsupported"))]
+        outs = [Outcome("normal", st), Outcome("raise", st.fork(), exc=SExc("AnyError", line=line, origin="unsupported"))]
+        # control flow that leaves the skipped statement: it may also return (any value) / break / continue
+        esc = self.escaping_exits(s)
+        if "return" in esc:
+            outs.append(Outcome("return", st.fork(), val=fresh("V", "ret_unsupported")))
+        for k_ in ("break", "continue"):
+            if k_ in esc:
+                outs.append(Outcome(k_, st.fork()))
+        return outs
+
+    @staticmethod
+    def escaping_exits(s):
+        """which of return / break / continue inside statement `s` transfer control out of `s`"""
+        found = set()
+
+        def walk(n, in_loop):
+            for ch in ast.iter_child_nodes(n):
+                if isinstance(ch, (ast.FunctionDef, ast.AsyncFunctionDef, ast.Lambda, ast.ClassDef)):
+                    continue
+                if isinstance(ch, ast.Return):
+                    found.add("return")
+                elif isinstance(ch, ast.Break) and not in_loop:
+                    found.add("break")
+                elif isinstance(ch, ast.Continue) and not in_loop:
+                    found.add("continue")
+                walk(ch, in_loop or isinstance(ch, (ast.For, ast.While, ast.AsyncFor)))
+        if isinstance(s, ast.Return):
+            return {"return"}
+        walk(s, isinstance(s, (ast.For, ast.While, ast.AsyncFor)))
+        return found
 
     def havoc_ghost(self, st, which):
         hook = self.reg.spec.get("__havoc_ghost__")
@@ -260,9 +289,12 @@ class Exec(Engine):
                 else:
                     res.append(o)
             return res
+        al = self.alias_of(s.value, fr) if isinstance(s.value, (ast.Name, ast.BoolOp, ast.IfExp)) else []
         v = self.ev(s.value, fr)
         for t in s.targets:
             self.bind_target(t, v, fr)
+            if al and isinstance(t, ast.Name):
+                self.set_alias(fr.st, t.id, al)
         return [Outcome("normal", fr.st)]
 
     def st_AugAssign(self, s, fr):
@@ -316,7 +348,18 @@ class Exec(Engine):
 
     def st_If(self, s, fr):
         st = fr.st
-        c = z3.simplify(self.cond(s.test, fr))
+        try:
+            c = z3.simplify(self.cond(s.test, fr))
+        except Unsupported as e:
+            # the test cannot be evaluated: either branch may be taken
+            st.add_taint(f"line {s.lineno}: {e}")
+            self.note(f"unsupported test at line {s.lineno} of {fr.fn_key}: {e} -> both branches, arbitrary outcome")
+            c = fresh("bool", "cond_unsupported").t
+            for (okey, attr) in list(st.heap):          # whatever the test calls may have had any effect
+                st.heap.pop((okey, attr), None)
+                self._hv[0] += 1
+                st.hver[(okey, attr)] = self._hv[0]
+            self.havoc_ghost(st, "*")
         if z3.is_true(c):
             return self.exec_block(s.body, fr)
         if z3.is_false(c):
@@ -403,6 +446,14 @@ class Exec(Engine):
                     return None
             if va is vb:
                 out[k] = va
+                continue
+            if k == self.ALIAS:
+                # which names denote the caller's argument objects: per branch, guarded by the branch condition
+                m_ = {}
+                for side, guard in ((va.t, c), (vb.t, z3.Not(c))):
+                    for nm_, al_ in side.items():
+                        m_.setdefault(nm_, []).extend((z3.simplify(z3.And(guard, c_)), p_) for c_, p_ in al_)
+                out[k] = mk_py(m_)
                 continue
             if va.k in ("int", "bool", "real", "str", "V", "obj", "z3") and va.k == vb.k and z3.eq(va.t, vb.t):
                 out[k] = va
@@ -821,6 +872,12 @@ class Exec(Engine):
         self.havoc_loop(s, fr, spec, extra)
         for g in spec.get("ghost_vars", []):
             self.havoc_target(g, fr)
+        # a one-shot iterator made before the loop and used in its body: earlier iterations may have taken any part of it
+        used = {n_.id for b_ in s.body for n_ in ast.walk(b_) if isinstance(n_, ast.Name) and isinstance(n_.ctx, ast.Load)}
+        for nm_ in sorted(used):
+            v_ = st.env.get(nm_)
+            if v_ is not None and v_.k == "iter" and getattr(v_.t, "oneshot", False) and v_.t is not isp:
+                st.consumed[id(v_.t)] = v_.t
         i = z3.Int(fresh_name(idx))
         st.env[idx] = mk_int(i)
         st.assume(i >= 0)
@@ -1564,6 +1621,9 @@ class Exec(Engine):
             st.env[a.kwarg.arg] = SV("V", z3.Const(a.kwarg.arg + "$", V), meta={"coll": "map"})
             st.assume(T.tag(st.env[a.kwarg.arg].t) == T.TAG["dict"])
             st.assume(T.is_VObj(st.env[a.kwarg.arg].t))
+        # the caller's argument objects (frame): positional/keyword parameters other than self; *args / **kwargs are fresh
+        st.env[self.ALIAS] = mk_py({n_: [(z3.BoolVal(True), n_)] for i_, n_ in enumerate(params)
+                                    if not (i_ == 0 and cls is not None and n_ in ("self", "cls")) and st.env[n_].k in ("V", "sdict", "tuple")})
         for g, kind in c.ghost.items():
             st.env[g] = named(kind, g) if not kind.startswith("z3:") else self.reg.spec["__mk_" + kind[3:]](g)
         for g, kind in c.free.items():
@@ -1624,6 +1684,15 @@ class Exec(Engine):
             rep.missing = str(e)
             return rep
         rep.paths = len(outs)
+        # frame of the arguments: one obligation per container parameter that is not a declared out-parameter; trivially
+        # discharged when the body has no in-place change of an alias of it (the obligations of the change sites carry the
+        # same name and were emitted where they occur)
+        seen_ = {vc.name for vc in rep.vcs}
+        al0 = old.env.get(self.ALIAS)
+        for p_ in (al0.t if al0 is not None else {}):
+            nm_ = f"frame.argument_{p_}_not_changed_in_place"
+            if p_ not in c.out_params and nm_ not in seen_:
+                rep.vcs.append(VC(nm_, key, [], z3.BoolVal(True), kind="frame", props=self.props_for(c, nm_)))
         # In a postcondition a parameter name denotes the value the CALLER passed (its entry value), exactly as the clause is
         # read when it is assumed at a call site -- also where the body rebinds the name.  Exceptions: declared out-parameters
         # (final content of a container updated in place).
